@@ -26,10 +26,54 @@ appends and set_offset is protected, so such a list cannot be built.  SAVE . LOA
 segments whose section data are in memory: save, load the saved bytes with the model's `load` (eager or lazy, string-
 or file-backed stream), save the loaded object into the same initial stream - the second save succeeds and yields the
 same stream byte for byte (composition of `reload_reports_saved_noseg` (families/c02.py), `RoundTrip.preRes_outRel` /
-`saveTail_os_congr` (the write phase of a segment-less save reads a section only through its header fields, its
-written-condition and the bytes it writes) and `save_twice_no_segments`).  Stated, not proved: the same for objects
-with segments (`C06.SaveLoadSaveStatement` relative to the abstract `Loaded`; `Compose.SaveLoadSaveStatement` for the
-model's loader): missing are `members_recomputed` and a congruence of the segment loop of `save`.
+`saveTail_os_congr` and `save_twice_no_segments`).
+THE SECOND SAVE SUCCEEDS (Props/C06Runs.lean): `save_twice_runs` - save o os = ok r with r.ok => save r.obj os = ok r,
+with NO hypothesis about the second save (save_twice_front assumed it returns ok), under `ResaveOkR` = ResaveOkC plus
+`StepNoWrap` (where the first save assigns an address: segment start <= cursor and cursor + gap < 2^64 - the only way
+the second save can take `if (req_offset < cur_offset) return false`); ladder `stepCore_resave_run` ..
+`segRun_resave_run`, `save_of_parts` (a save rebuilt from its phases); `resaveOkRB` Bool-valued sufficient condition;
+by-products: every non-NULL member of a segment of the saved object has its address marked as set, every segment its
+offset.
+SAVE . LOAD . SAVE WITH FLAT SEGMENTS (Lemmas/RoundTrip2.lean, Props/Compose2.lean): `Compose.save_load_save_flat` -
+for an object of the `ResaveDomain` (all clauses decidable, on the INPUT object: `FlatDomain`; `layoutDomB true false`
+= the memory size covers every member, excludes F14; `MemberDomain` = members exist, are non-empty, SHF_ALLOC, listed in
+ascending index order, carry SHF_TLS exactly in a PT_TLS, section 0 at file offset 0; section data in memory; `FrontOk`;
+`ResaveOkR`) and two decidable hypotheses on the SAVED object (`NoWrap64`; `AddrSeparate` = an allocated section that is
+not a declared member of a segment lies outside that segment's address range): save, `load` of the bytes (eager or lazy,
+either stream kind, into any object without translation), save of the loaded object into the same initial stream
+SUCCEEDS and yields the IDENTICAL stream.  Parts: `members_recomputed` (the loader's membership rule `Spec.inSegment`
+evaluated on the saved object returns exactly the declared member lists in the declared order: a declared member is
+allocated so the address rule applies, its address range lies in [p_vaddr, p_vaddr+p_memsz) by C04.save_segments, it is
+not empty, its TLS flag matches; a non-allocated section is outside all segments and the loose-section pass places it
+behind every flat segment's file range, section 0 stays at offset 0 before the first segment);
+`save_load_save_of_members` (the same conclusion from `MembersRecomputed` on the saved object instead of
+MemberDomain/AddrSeparate/cov); `RoundTrip.save_congr` (congruence of `save`: objects that agree on class, byte order,
+header, whose segments agree up to the auxiliary fields data/isLazy/isLoaded/streamSize - `reAux`, every pass commutes
+with it - and whose sections are pairwise `OutRel` and agree on `addrSet` wherever a segment refers to them - lock-step
+ladder `stepCore_rel` .. `saveFold_rel`, `saveTail_rel` - save to the same stream); `RoundTrip.load_segs_offsetSet`.
+`save_load_save_flat_input`: the same with EVERY hypothesis on the object to be saved - `NoWrap64` and `AddrSeparate`
+of the saved object are replaced by `noWrap64InB o hd` / `addrSeparateInB o hd`, Bool functions of the input that run the
+layout (`layoutOf (preSave o)`, like `layoutNW` / `layoutDomB`) and check its result (`noWrap64_of_input`,
+`addrSeparate_of_input`: the saved object carries the layout result's header fields, C04.save_secs_hdr); both classes.
+Non-vacuity: `exFlatM` (ELF32/MSB, one PT_LOAD) and `exTwoM` (ELF64/LSB, two PT_LOADs, explicit address, NOBITS member,
+loose section), both built with the model's API, meet every hypothesis (`exFlat_resave`, `exTwo_resave`).
+WHY THE EXTRA HYPOTHESES (each excludes a case where the REAL code does not reproduce the file; replayed with
+`check.py C06 --replay`, model and code agree): members listed in descending index order (third save returns false);
+an empty NOBITS member at a segment's end (dropped from the segment by load, laid out as loose section); an SHF_TLS
+section that is a member of a PT_LOAD only (load adds TLS sections to PT_TLS segments only: p_filesz 0x10 -> 0x05) -
+the last one is inside the documented writer domain and reported as a finding CANDIDATE (candidates/
+c06-tls-member-of-load.case), not registered.  `Compose.SaveLoadSaveStatement` (FlatDomain + ResaveOk only) is therefore
+too weak as first written; `saveLoadSave_flat_statement` is the proved form.
+NESTED SEGMENTS: `save_load_save_nested_input` / `save_load_save_of_members_nested` - the same conclusion for objects
+whose segments are flat or nested (`NestedDomain selE selN`, see families/c20.py), every hypothesis decidable and on the
+input object; here the equality of recomputed and declared member lists is a CHECKED hypothesis (`membersRecomputedInB o
+hd`, a Bool function of the input that runs the layout and applies `Spec.inSegment` to its result;
+`membersRecomputed_of_input`), not derived from structural hypotheses as `members_recomputed` does for flat segments.
+Non-vacuity: `exNestedM` (a PT_LOAD nested in a PT_LOAD).
+Not proved: `members_recomputed` for nested segments from structural hypotheses (a TLS section inside a PT_LOAD and a
+nested PT_TLS - the usual nesting - is dropped from the PT_LOAD's list by the loader, so the lists do differ there);
+ResaveOkR's no-wrap clause from `layoutNW` (it is a decidable hypothesis on the input, evaluated along the layout); a
+closed-form sufficient condition for `noWrap64InB` (e.g. "all sizes and addresses below 2^62").
 Correspondence: family load.
 Oracle: bytes of the first save == bytes of a second save of the same object; bytes of
 save(load(save(obj))) == bytes of save(obj).  Known open finding F13 (address-less NOBITS member with
@@ -74,8 +118,39 @@ THEOREMS = ["ElfioVerif.C06.save_twice_witness",
             "ElfioVerif.C06.exLoadedLike_resave",
             "ElfioVerif.RoundTrip.saveTail_os_congr",
             "ElfioVerif.RoundTrip.preRes_outRel",
-            "ElfioVerif.Compose.save_load_save_noseg"]
-EXTRA_IMPORTS = ["ElfioVerif.Props.Compose"]
+            "ElfioVerif.Compose.save_load_save_noseg",
+            "ElfioVerif.C06.save_of_parts",
+            "ElfioVerif.C06.stepCore_resave_run",
+            "ElfioVerif.C06.wsdStep_resave_run",
+            "ElfioVerif.C06.wsdLoop_resave_run",
+            "ElfioVerif.C06.layoutSegment_resave_run",
+            "ElfioVerif.C06.segRun_resave_run",
+            "ElfioVerif.C06.save_twice_runs",
+            "ElfioVerif.C06.resaveOkR_of_B",
+            "ElfioVerif.C06.exObj32_runs",
+            "ElfioVerif.RoundTrip.stepCore_rel",
+            "ElfioVerif.RoundTrip.wsdStep_rel",
+            "ElfioVerif.RoundTrip.layoutSegment_rel",
+            "ElfioVerif.RoundTrip.saveFold_rel",
+            "ElfioVerif.RoundTrip.layoutSegment_reAux",
+            "ElfioVerif.RoundTrip.saveTail_rel",
+            "ElfioVerif.RoundTrip.save_congr",
+            "ElfioVerif.RoundTrip.load_segs_offsetSet",
+            "ElfioVerif.Compose.save_load_save_of_members",
+            "ElfioVerif.Compose.members_recomputed",
+            "ElfioVerif.Compose.save_load_save_flat",
+            "ElfioVerif.Compose.noWrap64_of_input",
+            "ElfioVerif.Compose.addrSeparate_of_input",
+            "ElfioVerif.Compose.save_load_save_flat_input",
+            "ElfioVerif.Compose.save_load_save_core",
+            "ElfioVerif.Compose.save_load_save_of_members_nested",
+            "ElfioVerif.Compose.membersRecomputed_of_input",
+            "ElfioVerif.Compose.save_load_save_nested_input",
+            "ElfioVerif.Compose.saveLoadSave_flat_statement",
+            "ElfioVerif.Compose.exFlat_resave",
+            "ElfioVerif.Compose.exTwo_resave",
+            "ElfioVerif.Compose.ExOk.saveLoadSave"]
+EXTRA_IMPORTS = ["ElfioVerif.Props.Compose", "ElfioVerif.Props.C06Runs", "ElfioVerif.Props.Compose2"]
 SITES = ["save_", "lsws", "lst_", "lseg", "wsd"]
 RULE = ("writer-domain programs x 4 configurations: save, save again, reload (eager or lazy), save; plus "
         "well-formed bundled examples: load, save, reload, save; non-trivial = first save succeeded and the "
